@@ -700,11 +700,18 @@ pub fn read_cases(cases: &str, from: usize, npol: usize, out: &str) -> std::io::
 }
 
 /// Run a list of programs (NDJSON, one program per line): write, snapshot, read back.
-pub fn run_programs(progs: &str, out: &str) -> std::io::Result<()> {
-    let mut t = TraceOut::create(out)?;
+/// With `from` the run is supervised: output is appended, the program in progress is reported in <out>.progress
+pub fn run_programs(progs: &str, from: Option<usize>, out: &str) -> std::io::Result<()> {
+    use std::io::Write;
+    let mut t = if from.is_some() { TraceOut::append(out)? } else { TraceOut::create(out)? };
+    let progress = format!("{out}.progress");
     for (i, line) in std::fs::read_to_string(progs)?.lines().enumerate() {
-        if line.trim().is_empty() {
+        if line.trim().is_empty() || i < from.unwrap_or(0) {
             continue;
+        }
+        if from.is_some() {
+            t.f.flush()?;
+            std::fs::write(&progress, format!("{i}"))?;
         }
         let prog: Value = serde_json::from_str(line).expect("program json");
         t.ev(json!({"ev":"reset","run":i,"name":prog["name"]}));
@@ -735,6 +742,9 @@ pub fn run_programs(progs: &str, out: &str) -> std::io::Result<()> {
         }
         run_reader(&img, &ops2, &ReadCtx { direct_blobs: outc.blobs.clone() }, &mut t);
     }
-    use std::io::Write;
-    t.f.flush()
+    t.f.flush()?;
+    if from.is_some() {
+        std::fs::write(&progress, "done")?;
+    }
+    Ok(())
 }
